@@ -116,6 +116,16 @@ func (m emitModel) operand(e ast.Expr, depth int) Operand {
 				r.Objs = append(r.Objs, v)
 				return r
 			}
+			// a local that only names an operand expression (`cur := jit.Sib(_IP, _IC, 1, 0)`)
+			if init := m.p.LocalInit(v); init != nil {
+				if call, ok := ast.Unparen(init).(*ast.CallExpr); ok {
+					if c := m.p.Callee(call); c != nil && c.Pkg() != nil && core.Rel(c.Pkg().Path()) == "internal/jit" {
+						r := m.operand(init, depth+1)
+						r.Objs = append(r.Objs, v)
+						return r
+					}
+				}
+			}
 		}
 		op.Name = exprStr(e)
 		if o != nil {
